@@ -29,6 +29,7 @@ import (
 	"reflect"
 	"runtime"
 	"runtime/pprof"
+	"slices"
 	"sort"
 	"strconv"
 	"strings"
@@ -132,6 +133,9 @@ type HashOptions struct {
 	ctagsPath        string
 	cTagsMustSucceed bool
 	largeFiles       []string
+	trigramMax       int
+	scipCTagsPath    string
+	languageMap      ctags.LanguageMap
 }
 
 func (o *Options) HashOptions() HashOptions {
@@ -141,6 +145,9 @@ func (o *Options) HashOptions() HashOptions {
 		ctagsPath:        o.CTagsPath,
 		cTagsMustSucceed: o.CTagsMustSucceed,
 		largeFiles:       o.LargeFiles,
+		trigramMax:       o.TrigramMax,
+		scipCTagsPath:    o.ScipCTagsPath,
+		languageMap:      o.LanguageMap,
 	}
 }
 
@@ -153,6 +160,22 @@ func (o *Options) GetHash() string {
 	hasher.Write(fmt.Appendf(nil, "%d", h.sizeMax))
 	hasher.Write(fmt.Appendf(nil, "%q", h.largeFiles))
 	hasher.Write(fmt.Appendf(nil, "%t", h.disableCTags))
+
+	// The options below were added to the hash later. They are only written
+	// when they differ from their default, so that the hash of an index built
+	// with the defaults does not change (which would force a full re-index).
+	if h.trigramMax != 0 && h.trigramMax != defaultTrigramMax {
+		hasher.Write(fmt.Appendf(nil, "trigramMax=%d", h.trigramMax))
+	}
+	if h.scipCTagsPath != "" {
+		hasher.Write(fmt.Appendf(nil, "scipCTagsPath=%q", h.scipCTagsPath))
+	}
+	if len(h.languageMap) > 0 {
+		languages := slices.Sorted(maps.Keys(h.languageMap))
+		for _, language := range languages {
+			hasher.Write(fmt.Appendf(nil, "languageMap=%q:%d", language, h.languageMap[language]))
+		}
+	}
 
 	return fmt.Sprintf("%x", hasher.Sum(nil))
 }
@@ -282,6 +305,9 @@ type Builder struct {
 	postingsPool sync.Pool
 }
 
+// defaultTrigramMax is the value SetDefaults uses for Options.TrigramMax.
+const defaultTrigramMax = 20000
+
 type finishedShard struct {
 	temp, final string
 }
@@ -330,7 +356,7 @@ func (o *Options) SetDefaults() {
 		o.ShardMax = 100 << 20
 	}
 	if o.TrigramMax == 0 {
-		o.TrigramMax = 20000
+		o.TrigramMax = defaultTrigramMax
 	}
 
 	if o.RepositoryDescription.Name == "" && o.RepositoryDescription.URL != "" {
